@@ -27,9 +27,21 @@ def main() -> int:
     try:
         mod.run(ck)
     except Exception:
+        # The check stopped half-way. On the unchanged tree this never happens; when it does, the usual cause is a change to the
+        # code under test that breaks an assumption of a translator, harness or oracle (an implementation call raising where it
+        # never did). Nothing is shown to hold then, so this is a failed obligation: reported as a violation without a failing
+        # input unless the concrete violations found before the crash are all there is to say (they are printed first either way).
         traceback.print_exc()
-        print(f'INTERNAL-ERROR property={a.pid} (the check itself failed; nothing is claimed)')
-        return 2
+        tb = traceback.format_exc()
+        ck.obligation('check:ran-to-completion', False,
+                      'the check stopped with an unexpected exception before it had finished; what it had not yet examined is not '
+                      'shown to hold:\n' + tb[-2500:])
+        try:
+            return ck.finish()
+        except Exception:
+            traceback.print_exc()
+            print(f'INTERNAL-ERROR property={a.pid} (the check itself failed; nothing is claimed)')
+            return 2
     return ck.finish()
 
 
